@@ -148,9 +148,14 @@ def _to_symbolic_repr(model: Model) -> SymbolicRepr:
 
 
 def _free_name(name: str, taken: set[str]) -> str:
-    """Extend a generated function name until no component function has it."""
+    """Extend a generated function name until no other function has it.
+
+    The name handed out is taken from then on: `init_a_` generated for `a` (because a
+    component function is called `init_a`) must not be generated for `a_` as well.
+    """
     while name in taken:
         name = f"{name}_"
+    taken.add(name)
     return name
 
 
@@ -206,7 +211,7 @@ def generate_mxlpy_code_from_symbolic_repr(
 
     functions: dict[str, tuple[sympy.Expr, list[str]]] = {}
     # Names of the functions of derived quantities and reactions. The names generated
-    # for initial assignments and stoichiometries must not be among them.
+    # for initial assignments and stoichiometries must not be among them, nor repeat.
     taken = {fn.fn_name for fn in model.derived.values()} | {
         rxn.fn.fn_name for rxn in model.reactions.values()
     }
